@@ -1,5 +1,299 @@
-/- Line-protocol handler for C03 (stub until the model exists). -/
-import NoulithModel.Common
+/- Line-protocol handler for C03.
+
+Requests (tokens separated by single spaces, none contains a space):
+
+  ce  <leaf> (<op> <leaf>)*            drive `ChainEvaluator::{new,give,finish}` directly
+  src <nargs> <tok>* [A:<i>]*          the `Expr::Chain` arm through parse+evaluate; `tok` alternates
+                                       operand / operator; the last `nargs` tokens are the arguments the
+                                       resulting section is applied to (nargs = `-` : not applied)
+  real <leaf> (<name> <leaf>)*         a chain over real builtins (precedence, associativity and
+                                       try_chain behaviour taken from Generated/C03Tables)
+
+  <op>   = id,cls,accepts,limit,fail,prec,assoc      prec = n | <int rank>, assoc = L | R
+  operand tokens of `src`: E:<i> (logs, value i) | T:<i> (logs, then throws) | U (underscore)
+  operator tokens of `src`: O:<op> (identifier) | B:<op> (backticked logging expression) | X:<i>
+                            (identifier bound to a non-function)
+
+Response: `<impl>\t<spec>\t<impl with the interleaved event log>`.
+  ce/src : `ok <value> evals=<…> apps=<…>` | `throw` | `panic`
+  real   : `ok <s-expression>`
+-/
+import NoulithModel.Spec.ChainTree
+import NoulithModel.Generated.C03Tables
+
 namespace Noulith.DriverC03
-def handle (_args : List String) : String := "bad-op"
+open Noulith Noulith.Chain
+
+/-- the harness's `TreeOp` builtin -/
+structure TOp where
+  id : String
+  cls : Nat
+  accepts : Nat      -- bit k set: chains with an arriving operator of class k
+  limit : Nat        -- merges still allowed (9 = unlimited)
+  fail : Nat         -- 0 = builds a list, 1 = throws, 2 = panics
+  deriving Repr, DecidableEq
+
+def tryChainT (a b : TOp) : Option TOp :=
+  if a.limit > 0 && a.accepts.testBit b.cls then
+    some { a with id := a.id ++ "_" ++ b.id, limit := if a.limit == 9 then 9 else a.limit - 1 }
+  else none
+
+/-- values of the driver's interpreter -/
+inductive DVal where
+  | v (text : String) (apps : List String)
+  | fn (op : TOp) (prec : Precedence)
+  | sec (seed : Option DVal) (ops : List (TOp × Precedence × Option DVal))
+
+def DVal.text : DVal → String
+  | .v t _ => t
+  | .fn _ _ => "<func>"
+  | .sec _ _ => "<func>"
+def DVal.apps : DVal → List String
+  | .v _ a => a
+  | _ => []
+
+def strHex (s : String) : String := "s:" ++ hexOfBytes (s.toUTF8.toList.map (·.toNat))
+
+def runT (f : TOp) (args : List DVal) : Out DVal :=
+  match f.fail with
+  | 0 => .ok (.v ("[" ++ joinWith "," (strHex f.id :: args.map DVal.text) ++ "]")
+                (args.flatMap DVal.apps ++ [f.id]))
+  | 1 => .throw
+  | _ => .panic
+
+def parsePrec (p a : String) : Option Precedence :=
+  let pr : Option Prec := if p == "n" then some .nan else p.toInt?.map .fin
+  let as : Option Assoc := if a == "L" then some .left else if a == "R" then some .right else none
+  match pr, as with
+  | some x, some y => some ⟨x, y⟩
+  | _, _ => none
+
+def parseOp (s : String) : Option (Op TOp) :=
+  match s.splitOn "," with
+  | [id, cls, acc, lim, fail, p, a] =>
+    match cls.toNat?, acc.toNat?, lim.toNat?, fail.toNat?, parsePrec p a with
+    | some c, some ac, some l, some f, some pr => some ⟨⟨id, c, ac, l, f⟩, pr⟩
+    | _, _, _, _, _ => none
+  | _ => none
+
+def leafVal (i : Nat) : DVal := .v (toString i) []
+
+def parsePairs : List String → Option (List (Op TOp × Nat))
+  | [] => some []
+  | o :: x :: rest =>
+    match parseOp o, x.toNat?, parsePairs rest with
+    | some g, some i, some r => some ((g, i) :: r)
+    | _, _, _ => none
+  | _ => none
+
+def renderVal (r : Out DVal) (evals : Option (List String)) : String :=
+  match r with
+  | .ok d =>
+    "ok " ++ d.text ++ (match evals with | some e => " evals=" ++ joinWith "," e | none => "")
+      ++ " apps=" ++ joinWith "," d.apps
+  | .throw => "throw"
+  | .panic => "panic"
+
+/-! ### ce -/
+def handleCe (first : Nat) (pairs : List (Op TOp × Nat)) : String :=
+  let impl := evalChain runT tryChainT (leafVal first)
+    (pairs.map fun (g, i) => (g.fn, g.prec, leafVal i))
+  let tree := climbTree tryChainT (⟨first, pairs⟩ : ChainOf TOp Nat)
+  let spec := semM runT tryChainT leafVal tree
+  renderVal impl none ++ "\t" ++ renderVal spec none ++ "\t-"
+
+/-! ### src -/
+inductive Ex where
+  | opd (i : Nat)
+  | thr (i : Nat)
+  | und
+  | opr (g : Op TOp)
+  | bopr (k : Nat) (g : Op TOp)
+  | nonf (k : Nat)
+  | arg (i : Nat)
+
+def Ex.name : Ex → String
+  | .opd i => s!"e{i}"
+  | .thr i => s!"e{i}"
+  | .und => "_"
+  | .opr _ => ""          -- a plain identifier leaves no trace
+  | .bopr k _ => s!"o{k}"
+  | .nonf _ => ""
+  | .arg i => s!"e{i}"
+
+def lang : Lang Ex TOp DVal where
+  evaluate
+    | .opd i => .ok (leafVal i)
+    | .thr _ => .throw
+    | .und => .throw          -- a bare `_` outside a section is an error
+    | .opr g => .ok (.fn g.fn g.prec)
+    | .bopr _ g => .ok (.fn g.fn g.prec)
+    | .nonf k => .ok (leafVal k)
+    | .arg i => .ok (leafVal i)
+  isUnderscore | .und => true | _ => false
+  asFunc | .fn f p => some (f, p) | .sec _ _ => none | .v _ _ => none
+  mkSection := .sec
+  run := runT
+  run2 := fun f a b => runT f [a, b]
+  tryChain := tryChainT
+
+def parseEx (pos : Nat) (s : String) : Option Ex :=
+  if s == "U" then some .und
+  else match s.splitOn ":" with
+    | ["E", i] => i.toNat?.map .opd
+    | ["T", i] => i.toNat?.map .thr
+    | ["A", i] => i.toNat?.map .arg
+    | ["X", i] => i.toNat?.map .nonf
+    | ["O", o] => (parseOp o).map .opr
+    | ["B", o] => (parseOp o).map (.bopr pos)
+    | _ => none
+
+def parseExs : Nat → List String → Option (List Ex)
+  | _, [] => some []
+  | n, s :: rest =>
+    match parseEx n s, parseExs (n + 1) rest with
+    | some e, some r => some (e :: r)
+    | _, _ => none
+
+def pairUp : List Ex → Option (List (Ex × Ex))
+  | [] => some []
+  | a :: b :: rest => (pairUp rest).map ((a, b) :: ·)
+  | _ => none
+
+def traceNames (l : List Ex) : List String := (l.map Ex.name).filter (· ≠ "")
+
+/-- evaluate the argument expressions of the call in order (the `Expr::Call` arm, outside C03) -/
+def evalArgs : List Ex → Tr Ex (List DVal)
+  | [] => Tr.pure []
+  | a :: rest => Tr.bind (evalT lang a) fun v => Tr.bind (evalArgs rest) fun vs => Tr.pure (v :: vs)
+
+/-- the spec for the same request: the climbing tree over the operands with holes filled by the
+arguments, evaluated bottom-up; sub-expressions evaluated once each, left to right (chain first,
+then the arguments) -/
+def specSrc (op1 : Ex) (ops : List (Ex × Ex)) (args : Option (List Ex)) : String :=
+  -- fill holes
+  let holes := (if lang.isUnderscore op1 then 1 else 0) + (ops.filter fun p => lang.isUnderscore p.2).length
+  let isSection := holes > 0
+  let argl := args.getD []
+  let fill : List Ex → List Ex → List Ex := fun es as =>
+    (es.foldl (fun (acc : List Ex × List Ex) e =>
+      if lang.isUnderscore e then
+        match acc.2 with
+        | a :: rest => (acc.1 ++ [a], rest)
+        | [] => (acc.1 ++ [e], [])
+      else (acc.1 ++ [e], acc.2)) ([], as)).1
+  let opds := fill (op1 :: ops.map (·.2)) argl
+  let oprs := ops.map (·.1)
+  -- expected evaluation order of the sub-expressions
+  let order := ((if lang.isUnderscore op1 then [] else [op1]) ++
+    ops.flatMap (fun p => if lang.isUnderscore p.2 then [p.1] else [p.1, p.2])) ++ argl
+  -- any failing / ill-typed sub-expression: the chain raises
+  let bad := order.any fun e => match e with
+    | .thr _ => true | .nonf _ => true | .und => true | _ => false
+  if !isSection && args.isSome then "unsupported"
+  else if bad then "throw"
+  else if isSection && args.isNone then "ok <func> evals=" ++ joinWith "," (traceNames order) ++ " apps="
+  else if isSection && argl.length ≠ holes then "throw"
+  else
+    let toNat : Ex → Nat := fun e => match e with | .opd i => i | .arg i => i | _ => 0
+    let toOp : Ex → Op TOp := fun e => match e with
+      | .opr g => g | .bopr _ g => g | _ => ⟨⟨"?", 0, 0, 0, 1⟩, Precedence.zero⟩
+    match opds with
+    | [] => "throw"
+    | f :: restOpds =>
+      let c : ChainOf TOp Nat := ⟨toNat f, (oprs.map toOp).zip (restOpds.map toNat)⟩
+      renderVal (semM runT tryChainT leafVal (climbTree tryChainT c)) (some (traceNames order))
+
+def handleSrc (nargs : Option Nat) (exs : List Ex) : String :=
+  let n := exs.length - nargs.getD 0
+  let chainToks := exs.take n
+  let argToks := exs.drop n
+  match chainToks with
+  | [] => "bad-op"
+  | op1 :: restToks =>
+    match pairUp restToks with
+    | none => "bad-op"
+    | some ops =>
+      let r : Tr Ex DVal :=
+        match nargs with
+        | none => chainArm lang op1 ops
+        | some _ =>
+          Tr.bind (chainArm lang op1 ops) fun callee =>
+          Tr.bind (evalArgs argToks) fun args =>
+          match callee with
+          | .sec seed sops => Tr.lift (runChainSection lang seed sops args)
+          | _ => Tr.fail
+      let impl := renderVal r.2 (some (traceNames r.1))
+      impl ++ "\t" ++ specSrc op1 ops (nargs.map fun _ => argToks) ++ "\t-"
+
+/-! ### real builtins -/
+structure ROp where
+  name : String      -- what `builtin_name()` answers (merged comparisons: "a,b")
+  cmp : Bool
+  accepts : List String
+  deriving Repr, DecidableEq
+
+def tryChainR (a b : ROp) : Option ROp :=
+  if a.cmp && b.cmp then some { a with name := a.name ++ "," ++ b.name }
+  else if a.accepts.contains b.name then some a
+  else none
+
+def lookupReal (name : String) : Option (Op ROp) :=
+  match Gen.registrations.find? (·.name == name) with
+  | none => none
+  | some r =>
+    let p : Int := match r.explicit with
+      | some e => e
+      | none => defaultPrecedence Gen.charTable Gen.charDefault r.name
+    let (cmp, acc) := match Gen.chainTable.find? (·.1 == name) with
+      | some (_, c, a) => (c, a)
+      | none => (false, [])
+    some ⟨⟨r.bname, cmp, acc⟩, ⟨.fin p, if r.rassoc then .right else .left⟩⟩
+
+def runR (f : ROp) (args : List String) : Out String :=
+  .ok ("(" ++ joinWith " " (f.name :: args) ++ ")")
+
+def parseRealPairs : List String → Option (List (Op ROp × Nat))
+  | [] => some []
+  | o :: x :: rest =>
+    match lookupReal o, x.toNat?, parseRealPairs rest with
+    | some g, some i, some r => some ((g, i) :: r)
+    | _, _, _ => none
+  | _ => none
+
+def handleReal (first : Nat) (pairs : List (Op ROp × Nat)) : String :=
+  let lf : Nat → String := fun i => s!"#{i}"
+  let impl := evalChain runR tryChainR (lf first) (pairs.map fun (g, i) => (g.fn, g.prec, lf i))
+  let spec := semM runR tryChainR lf (climbTree tryChainR (⟨first, pairs⟩ : ChainOf ROp Nat))
+  impl.render id ++ "\t" ++ spec.render id ++ "\t-"
+
+/-- precedence of a registered name according to the generated tables (for the run-time cross-check) -/
+def handlePrec (name : String) : String :=
+  match lookupReal name with
+  | some g => match g.prec.p with
+    | .fin p => s!"ok {p}\tok {p}\t{if g.prec.a == .right then "R" else "L"}"
+    | .nan => "bad-op"
+  | none => "bad-op"
+
+def handle (args : List String) : String :=
+  match args with
+  | "ce" :: first :: rest =>
+    match first.toNat?, parsePairs rest with
+    | some f, some ps => handleCe f ps
+    | _, _ => "bad-op"
+  | "src" :: nargs :: rest =>
+    match parseExs 0 rest with
+    | some exs => if nargs == "-" then handleSrc none exs else
+      match nargs.toNat? with
+      | some n => handleSrc (some n) exs
+      | none => "bad-op"
+    | none => "bad-op"
+  | "real" :: first :: rest =>
+    match first.toNat?, parseRealPairs rest with
+    | some f, some ps => handleReal f ps
+    | _, _ => "bad-op"
+  | ["prec", name] => handlePrec name
+  | ["names"] => joinWith " " ((Gen.registrations.filter (·.cfg == "")).map (·.name))
+  | _ => "bad-op"
+
 end Noulith.DriverC03
